@@ -58,12 +58,12 @@ theorem pushCountElems_not_plain (ext : Ext) : ∀ (xs : SVals) (el : B) (c : Na
 
 def ElemsBl (ext : Ext) (xs : SVals) : Prop :=
   ∀ (large : Bool) (el : B) (offs : List Int) (cpath : String) (cdt : DataType) (cn : Bool) (cmd : Metadata),
-    Good el cdt cn cmd → At cpath cdt cn cmd el → vsizes ext xs ≤ room el →
+    GoodH el cdt cn cmd → At cpath cdt cn cmd el → vsizes ext xs ≤ room el →
     Bl (blameAll ext cpath cdt cn cmd xs) (pushElems ext large el offs xs)
 
 def CountBl (ext : Ext) (xs : SVals) : Prop :=
   ∀ (el : B) (c : Nat) (cpath : String) (cdt : DataType) (cn : Bool) (cmd : Metadata),
-    Good el cdt cn cmd → At cpath cdt cn cmd el → vsizes ext xs ≤ room el →
+    GoodH el cdt cn cmd → At cpath cdt cn cmd el → vsizes ext xs ≤ room el →
     Bl (blameAll ext cpath cdt cn cmd xs) (pushCountElems ext el c xs)
 
 /-- the position the next tuple element goes to: field `j`, or beyond the last field (then it is ignored) -/
@@ -98,7 +98,7 @@ def EntriesBl (ext : Ext) (es : SEntries) : Prop :=
 def MapEntriesBl (ext : Ext) (es : SEntries) : Prop :=
   ∀ (offs : List Int) (ks vs : B) (kp : String) (kdt : DataType) (kn : Bool) (kmd : Metadata)
     (vp : String) (vdt : DataType) (vn : Bool) (vmd : Metadata),
-    Good ks kdt kn kmd → At kp kdt kn kmd ks → Good vs vdt vn vmd → At vp vdt vn vmd vs →
+    GoodH ks kdt kn kmd → At kp kdt kn kmd ks → GoodH vs vdt vn vmd → At vp vdt vn vmd vs →
     vsizee ext es ≤ room ks → vsizee ext es ≤ room vs →
     Bl (blameEntriesMap ext kp kdt kn kmd vp vdt vn vmd es) (pushMapEntries ext offs ks vs es)
 
@@ -189,7 +189,7 @@ theorem knownKeys_positional (fs : List Field) (n : Nat) :
 
 /-- `serialize_seq` / `serialize_tuple` / `serialize_tuple_struct` on every builder family -/
 theorem seqLike_bl {ext : Ext} [ExtPlain ext] {xs : SVals} (hpe : ElemsBl ext xs) (hpc : CountBl ext xs)
-    (hpt : TupleBl ext xs) (k : SeqKind) {b : B} {path : String} {dt n md} (hg : Good b dt n md)
+    (hpt : TupleBl ext xs) (k : SeqKind) {b : B} {path : String} {dt n md} (hg : GoodH b dt n md)
     (ha : At path dt n md b) (hcap : vsizes ext xs + 1 ≤ room b) :
     Bl (seqS ext path dt (k != .seq) xs) (ctx b.ann (seqLikeWith (fun large el offs => pushElems ext large el offs xs)
       (fun el c => pushCountElems ext el c xs) (fun s => pushTupleElems ext s xs) (u8All xs) b k)) := by
@@ -199,7 +199,7 @@ theorem seqLike_bl {ext : Ext} [ExtPlain ext] {xs : SVals} (hpe : ElemsBl ext xs
     have hsh := hg.shape
     simp only [Shape] at hsh
     obtain ⟨_, cname, cdt, cn, cmd, hdt, hsel⟩ := hsh
-    have hgel := Good.list_el hg hdt hsel
+    have hgel := GoodH.list_el hg hdt hsel
     have hael : At (path ++ "." ++ childName cname) cdt cn cmd el := by
       cases large
       · simp only [Bool.false_eq_true, if_false] at hdt; subst hdt; exact At.list (.inl ha)
@@ -222,12 +222,12 @@ theorem seqLike_bl {ext : Ext} [ExtPlain ext] {xs : SVals} (hpe : ElemsBl ext xs
     obtain ⟨_, cname, cdt, cn, cmd, hdt, hsel⟩ := hsh
     subst hdt
     have hw := hg.wf
-    simp only [WFB] at hw
-    have hsafe := hg.safe
-    simp only [Safe] at hsafe
+    simp only [WFH] at hw
+    have hsafe := hg.nd
+    simp only [NoDictKey] at hsafe
     have ht := hg.tot
     simp only [total, totalF, Bool.and_eq_true] at ht
-    have hgel : Good el cdt cn cmd := ⟨hw.2.2, hsafe.1, hsel, ht.1⟩
+    have hgel : GoodH el cdt cn cmd := ⟨hw.2.2, hsafe, hsel, ht.1⟩
     have hael := ha.fixedSizeList
     have hS : seqS ext path (.fixedSizeList (.mk cname cdt cn cmd) (m : Int)) (k != .seq) xs =
         (if ((xs.length : Int) != (m : Int)) || (blameAll ext (path ++ "." ++ childName cname) cdt cn cmd xs).isEmpty
@@ -336,7 +336,7 @@ theorem recS_self {ext : Ext} {b : B} {path : String} {dt n md} {fields : SField
 
 /-- `serialize_struct` on every builder family -/
 theorem recordLike_bl {ext : Ext} [ExtPlain ext] {fields : SFields} (hpf : FieldsBl ext fields) {b : B} {path : String}
-    {dt n md} (hg : Good b dt n md) (ha : At path dt n md b) (hcap : vsizef ext fields + 1 ≤ room b) :
+    {dt n md} (hg : GoodH b dt n md) (ha : At path dt n md b) (hcap : vsizef ext fields + 1 ≤ room b) :
     Bl (recS ext path dt fields) (ctx b.ann (recordWith (fun s => pushFields ext s fields) b)) := by
   cases b with
   | struct p len v fs cached next seen =>
